@@ -7,6 +7,7 @@ import (
 	"fmt"
 	"os"
 
+	"verifharness/internal/c01"
 	"verifharness/internal/c05"
 	"verifharness/internal/c17"
 	"verifharness/internal/pc"
@@ -16,6 +17,7 @@ import (
 )
 
 var commands = map[string]func(args []string) *rep.Report{
+	"c01": c01.Run,
 	"c03": sigs.RunC03,
 	"c05": c05.Run,
 	"c18": sigs.RunC18,
